@@ -262,9 +262,22 @@ Definition concat_dv (a b : jsstr) : jsstr :=
   | _, _ => a
   end.
 
+(* utf8.DecodeLastRuneInString(s) is not (RuneError, 1): s is empty or its last 1..4 bytes are exactly one
+   well-formed sequence.  (Go walks back to the nearest non-continuation byte within 4 bytes and decodes forward
+   from there; that succeeds up to the end of s exactly when such a sequence exists.) *)
+Definition one_rune (l : list N) : bool :=
+  match decode_strict l with Some [_] => true | _ => false end.
+Definition last_rune_ok (s : list N) : bool :=
+  match s with
+  | [] => true
+  | _ => existsb (fun k => one_rune (skipn (length s - k) s)) [1; 2; 3; 4]%nat
+  end.
+
 Definition concat (a b : jsstr) : jsstr :=
   match a, b with
-  | SImp s false, SImp t false => SImp (s ++ t) false     (* unscanned + unscanned: raw byte concatenation *)
+  | SImp s false, SImp t false =>
+    (* unscanned + unscanned: the bytes are joined unless s ends in a truncated/invalid sequence *)
+    if last_rune_ok s then SImp (s ++ t) false else concat_dv (devirt a) b
   | _, _ => concat_dv (devirt a) b
   end.
 
@@ -312,7 +325,9 @@ Definition strict_equals (a b : jsstr) : bool :=
   | SUni _, SAscii _ => false
   | SImp s sc, SAscii t => match imp_u s sc with Some _ => false | None => list_eqb s t end
   | SImp s _, SUni t => match scan s with Some u => list_eqb u t | None => false end
-  | SImp s _, SImp t _ => list_eqb s t                    (* raw bytes *)
+  | SImp s _, SImp t _ =>
+    (* same bytes, or (after scanning both) the same UTF-16 array: bytes that differ only in invalid UTF-8 *)
+    list_eqb s t || match scan s, scan t with Some u, Some v => list_eqb u v | _, _ => false end
   end.
 
 Definition same_as := strict_equals.
@@ -510,19 +525,31 @@ Definition concat_strings (l : list jsstr) : jsstr :=
   then SAscii (List.concat (map payload dl))
   else let st := fold_left usb_write dl ([], false) in usb_string (fst st) (snd st).
 
-(* trim*: newStringValue(strings.Trim(s.String(), ws)); modelled on runes *)
-Definition i_trim (mode : N) (a : jsstr) : jsstr :=
-  let rs := go_runes a in
-  from_runes (if mode =? 0 then s_trim rs else if mode =? 1 then s_trim_start rs else s_trim_end rs).
+(* trimString: two CharAt loops, then Substring(start, end) *)
+Fixpoint count_ws (u : list N) : nat :=
+  match u with c :: t => if is_ws c then S (count_ws t) else 0%nat | [] => 0%nat end.
 
-(* toUpperCase / toLowerCase.  asciiString: strings.ToUpper.  Otherwise the string goes through a Go string and the
-   x/text caser, which is NOT modelled: the case map is the ASCII one, sound only when no non-ASCII rune of the
-   string has a case mapping (the harness alphabet is chosen so) *)
+Definition i_trim (mode : N) (a : jsstr) : jsstr :=
+  let u := payload (devirt a) in
+  let left := (mode =? 0) || (mode =? 1) in
+  let right := (mode =? 0) || negb (mode =? 1) in
+  let start := if left then count_ws u else 0%nat in
+  let stop := if right then (length u - count_ws (rev (skipn start u)))%nat else length u in
+  substring a start stop.
+
+(* toUpperCase / toLowerCase.  asciiString: strings.ToUpper/ToLower.  unicodeString: mapWellFormed feeds the
+   well-formed runs to the x/text caser and copies unpaired surrogates through a StringBuilder; importedString with
+   non-ASCII content: the caser is applied to the Go string.  The x/text caser is NOT modelled: the case map is the
+   ASCII one, sound only when no non-ASCII rune of the string has a case mapping (the harness alphabet is chosen so) *)
 Definition i_case (upper : bool) (a : jsstr) : jsstr :=
   let f := if upper then up else low in
-  match devirt a with
+  match a with
   | SAscii bs => SAscii (map f bs)
-  | _ => from_runes (map f (go_runes a))
+  | SUni us => from_utf16 (map f us)
+  | SImp s _ => match scan s with
+                | None => SAscii (map f s)
+                | Some _ => from_runes (map f (decode s))
+                end
   end.
 
 (* JSON.stringify(string): quote() writes UTF-8 into a byte buffer; ASCII-only -> asciiString, else importedString *)
